@@ -449,6 +449,9 @@ def c01(rep, tier):
                 for case in st['cases']:
                     labels |= set(l.get('name') for l in case['labels'] if isinstance(l, dict))
         kinds = set(k for k in gs_.kinds_seen.get(fq, set()) if k)
+        if not kinds:
+            D.unknown('%s: node kinds' % fq, 'the kinds of the nodes that reach %s could not be derived (the way nodes are built is not recognised)' % fq)
+            continue
         D.check(kinds and kinds <= labels, '%s: node kinds' % fq, 'kinds reaching the switch %s all have a case' % sorted(kinds),
                 'node kind(s) %s reach %s but have no case (they fall into the error default)' % (sorted(kinds - labels), fq), W(m, f))
     dvoid = m.fn('dispatchVoid')
